@@ -124,6 +124,26 @@ func Classify(cfg Config, rec []byte) Record {
 		if len(idx) < 2 {
 			continue
 		}
+		// An id shared between a request and a member that is not a request (a
+		// reply-shaped one is consumed or discarded before requests are looked at
+		// on a push-enabled server, and answered like a request otherwise): the
+		// property only speaks about two *requests* with one id.
+		mixed := false
+		for _, i := range idx {
+			if c := out.Members[i].Class; c == ReplyShaped || c == Neither {
+				mixed = true
+			}
+		}
+		if mixed {
+			for _, i := range idx {
+				m := &out.Members[i]
+				if m.DontCare == "" {
+					m.DontCare = "id shared with a member that is not a request"
+				}
+				m.Reply, m.Handler = AnyReply, false
+			}
+			continue
+		}
 		for _, i := range idx {
 			m := &out.Members[i]
 			if m.Class == ReplyShaped || m.Class == Neither || m.Reply == AnyReply {
